@@ -8,6 +8,7 @@ package main
 import (
 	"fmt"
 	"github.com/machship/mpath"
+	"github.com/shopspring/decimal"
 	"math/big"
 	"strconv"
 	"strings"
@@ -144,7 +145,31 @@ func (n c04Num) sci(upper bool) string {
 
 // lit: the i-th literal spelling (all denote the same value; none starts or ends with '.')
 func (n c04Num) lit(i int) string {
-	switch i % 5 {
+	switch i % 8 {
+	case 5: // a leading zero (a decimal numeral all the same: 0700 is seven hundred)
+		p := n.plain()
+		if strings.HasPrefix(p, "-") {
+			return "-0" + p[1:]
+		}
+		return "0" + p
+	case 6: // two leading zeros and, for whole numbers of two or more digits, a digit separator
+		p, sign := n.plain(), ""
+		if strings.HasPrefix(p, "-") {
+			p, sign = p[1:], "-"
+		}
+		if !strings.Contains(p, ".") && len(p) >= 2 {
+			return sign + "00" + p[:1] + "_" + p[1:]
+		}
+		return sign + "00" + p
+	case 7: // a digit separator in the whole part
+		p, sign := n.plain(), ""
+		if strings.HasPrefix(p, "-") {
+			p, sign = p[1:], "-"
+		}
+		if w := strings.IndexByte(p+".", '.'); w >= 2 {
+			return sign + p[:w-1] + "_" + p[w-1:]
+		}
+		return sign + p
 	case 0:
 		return n.plain()
 	case 1:
@@ -653,6 +678,49 @@ func genC04(c *Ctx) {
 		c04Check(c, t[0], q, tvMap("str", [][2]any{{hx("z"), tvF64(0)}}), exact, "named/binary-float-traps")
 	}
 
+	// quotients that sit just below / on / just above a rounding boundary of the 16th place, with long tails: rounding twice
+	// (first to some guard digits, then to 16) and truncating both show here and nowhere on a grid of short numbers
+	{
+		heads := []string{"0", "1", "12345678901234567", "9999999999999999", "250"}
+		tails := []string{"49995", "4999", "49999999", "499999999999999999999995", "5", "50", "5000000001", "50000000000000000000", "4", "45", "449", "4444449",
+			"94999", "0005", "00049", "9995", "99949999", "1", "9", "149995", "849996", "4999500001"}
+		divs := []string{"1", "3", "7", "0.3", "-2", "1e-5", "1234.5", "-0.007"}
+		n := 0
+		for _, h := range heads {
+			for _, t := range tails {
+				// q = h·10⁻¹⁶ + 0.t·10⁻¹⁶
+				q := c04Num{new(big.Int), -16 - len(t)}
+				q.coef.SetString(h+t, 10)
+				for _, sgn := range []int64{1, -1} {
+					qq := c04Num{new(big.Int).Mul(q.coef, big.NewInt(sgn)), q.exp}
+					for di, ds := range divs {
+						if (n+di)%3 != 0 && !c.thorough() {
+							continue
+						}
+						b := c04Parse(ds)
+						a := c04Num{new(big.Int).Mul(qq.coef, b.coef), qq.exp + b.exp}
+						toDec := func(x c04Num) decimal.Decimal { return decimal.NewFromBigInt(x.coef, int32(x.exp)) }
+						d := tvMap("str", [][2]any{{hx("a"), tvDec(toDec(a))}, {hx("b"), tvDec(toDec(b))}, {hx("as"), tvStr(a.plain())}})
+						c04Check(c, "Divide", "$.a.Divide($.b)", d, qq.rat(), "named/rounding-boundary/Divide")
+						c04Check(c, "Divide", "$.as.Divide(\""+b.plain()+"\")", d, qq.rat(), "named/rounding-boundary/Divide-strings")
+					}
+					n++
+					// Average of two numbers whose mean is q: q−δ and q+δ
+					dl := c04Parse([]string{"0", "1", "0.25", "1e-30", "123.456"}[n%5])
+					e := qq.exp
+					if dl.exp < e {
+						e = dl.exp
+					}
+					al := func(x c04Num) *big.Int { return new(big.Int).Mul(x.coef, c04Pow10(x.exp-e)) }
+					lo := decimal.NewFromBigInt(new(big.Int).Sub(al(qq), al(dl)), int32(e))
+					hi := decimal.NewFromBigInt(new(big.Int).Add(al(qq), al(dl)), int32(e))
+					d := tvMap("str", [][2]any{{hx("xs"), tvSlice(1, tvDec(lo), tvDec(hi))}})
+					c04Check(c, "Average", "$.xs.Average()", d, qq.rat(), "named/rounding-boundary/Average")
+				}
+			}
+		}
+	}
+
 	// pairs × functions × ways
 	k := 0
 	for _, a := range grid {
@@ -826,7 +894,7 @@ func genC04(c *Ctx) {
 			switch r.Intn(5) {
 			case 0:
 				x := c04RandNum(r)
-				args = append(args, x.lit(r.Intn(5)))
+				args = append(args, x.lit(r.Intn(8)))
 				all = append(all, x.rat())
 			case 1:
 				x := c04RandNum(r)
